@@ -320,4 +320,75 @@ theorem parseResponse_fetch_err (n : Nat) (hn : n < 2 ^ 32) (en : Bytes) (hen : 
   subst he
   exact responseDataAlt_err_of hd hmb hex hfe
 
+/-! ### FETCH: a rejected attribute after any number of well-formed ones -/
+
+/-- the attribute list `( a1 SP a2 ... SP ak SP <rejected attribute>`: the list ends in front of the
+    separator and the closing parenthesis is missing -/
+theorem msgAttList_err_later (first : Bytes × AttributeValue) (others : List (Bytes × AttributeValue))
+    (hall : ∀ x ∈ first :: others, EncAttr x.2 x.1) (bad : Bytes) (hbad : msgAtt bad = .err) :
+    msgAttList ([40] ++ ((first.1 ++ (others.map fun x => [32] ++ x.1).flatten) ++ 32 :: bad)) = .err := by
+  let F : Bytes → Prop := fun r => ∃ b, r = 32 :: b ∧ msgAtt b = .err
+  have key := Parses.sepList1_2 (sep := char 32) (p := msgAtt) Any (Starts spaceOrClose) F
+    first (others.map fun x => ([32], x.1, x.2))
+    (msgAtt_enc first.2 first.1 (hall first (by simp)))
+    (fun x hx => by
+      obtain ⟨y, _, rfl⟩ := List.mem_map.1 hx
+      exact ⟨char_ok 32, by simp⟩)
+    (fun x hx => by
+      obtain ⟨y, hy, rfl⟩ := List.mem_map.1 hx
+      exact msgAtt_enc y.2 y.1 (hall y (by simp [hy])))
+    (fun _ _ _ => trivial)
+    (fun x hx r => by
+      obtain ⟨y, _, rfl⟩ := List.mem_map.1 hx
+      exact ⟨32, r, by simp, by decide⟩)
+    (fun r ⟨b, hr, _⟩ => ⟨32, b, hr, by decide⟩)
+    (fun r ⟨b, hr, hb⟩ => Or.inr ⟨b, by subst hr; simp [char], by subst hr; simp, hb⟩)
+  have hlist := key (32 :: bad) ⟨bad, rfl, hbad⟩
+  have hmap : ((others.map fun x => ([32], x.1, x.2)).map fun x => x.1 ++ x.2.1) = others.map fun x => [32] ++ x.1 := by
+    simp [List.map_map, Function.comp_def]
+  rw [hmap] at hlist
+  unfold msgAttList parenthesizedNonemptyList
+  show Parser.bindP (char 40) _ _ = .err
+  unfold Parser.bindP
+  simp only [List.singleton_append] at hlist ⊢
+  simp only [char, beq_self_eq_true, ↓reduceIte]
+  show Parser.bindP (sepList1 (char 32) msgAtt) _ _ = .err
+  unfold Parser.bindP
+  rw [hlist]
+  show Parser.bindP (char 41) _ _ = .err
+  unfold Parser.bindP
+  rw [char_err 41 32 bad (by decide)]
+
+/-- a FETCH response in which some attribute after the first is rejected -/
+theorem parseResponse_fetch_err_later (n : Nat) (hn : n < 2 ^ 32) (en : Bytes) (hen : EncNumber n en) (m : List Bool)
+    (first : Bytes × AttributeValue) (others : List (Bytes × AttributeValue))
+    (hall : ∀ x ∈ first :: others, EncAttr x.2 x.1) (bad : Bytes) (hbad : msgAtt bad = .err) :
+    parseResponse (b!"* " ++ (en ++ (spell (b!" FETCH ") m ++
+      ([40] ++ ((first.1 ++ (others.map fun x => [32] ++ x.1).flatten) ++ 32 :: bad))))) = .err := by
+  refine parseResponse_err_of_payload ?_
+  have hfe : messageDataFetch (en ++ (spell (b!" FETCH ") m ++
+      ([40] ++ ((first.1 ++ (others.map fun x => [32] ++ x.1).flatten) ++ 32 :: bad)))) = .err := by
+    unfold messageDataFetch
+    show Parser.bindP number _ _ = .err
+    unfold Parser.bindP
+    have := number_enc (2 ^ 32) n en hen hn (spell (b!" FETCH ") m ++
+      ([40] ++ ((first.1 ++ (others.map fun x => [32] ++ x.1).flatten) ++ 32 :: bad))) (spell_space_head _ m _)
+    unfold number
+    rw [this]
+    show Parser.bindP (tagNoCase (b!" FETCH ")) _ _ = .err
+    unfold Parser.bindP
+    rw [tagNoCase_spell (b!" FETCH ") m _ trivial]
+    show Parser.bindP msgAttList _ _ = .err
+    unfold Parser.bindP
+    rw [msgAttList_err_later first others hall bad hbad]
+  have hex := map_err _ Response.expunge _ (expunge_err_num n en (b!"FETCH ") m
+    ([40] ++ ((first.1 ++ (others.map fun x => [32] ++ x.1).flatten) ++ 32 :: bad)) hen hn (by decide))
+  have hmb := map_err _ Response.mailboxData _
+    (mailboxData_err_num n en (b!"FETCH ") m
+      ([40] ++ ((first.1 ++ (others.map fun x => [32] ++ x.1).flatten) ++ 32 :: bad)) hen hn (by decide) (by decide))
+  obtain ⟨d, t, he, hd⟩ := encNumber_head n en hen
+  subst he
+  exact responseDataAlt_err_of hd hmb hex hfe
+
+
 end RT
